@@ -394,13 +394,11 @@ class Model:
         new = list(range(nid_before, box.next_id))
         qa = box.qids()
         sa = lys.get_statistics()
-        # bounded queue (three views of the same number must agree and respect the capacity)
+        # bounded queue (the largest of the three public/anchored views of the queue length is judged)
         sizes = {len(qa), sa["queue_size"], lys.get_queue_status()["size"]}
         if max(sizes) > cap:
             v.append((f"queue-over-capacity:{'ingest' if ingesting else kind}", f"{max(sizes)} items queued after "
                       f"{kind}{tuple(op[1:])}, max_queue_size={cap}"))
-        if len(sizes) != 1:
-            v.append(("queue-size-views-disagree", f"len(_queue)/statistics/status = {sorted(sizes)}"))
         # conservation
         reports = reported_ids(box.log)
         if isinstance(ret, DigestResult):
@@ -432,8 +430,6 @@ class Model:
             if ret.disposed != n_ok:
                 v.append(("disposed-count-mismatch", f"DigestResult.disposed={ret.disposed}, {n_ok} digesters returned "
                                                      f"normally ({n_raise} raised)"))
-            if ret.success != (n_raise == 0):
-                v.append(("digest-success-flag-mismatch", f"success={ret.success} with {n_raise} raising digesters"))
         # sensitive data
         if "SECRET" in repr(lys.get_recycled()):
             v.append(("sensitive-in-recycling-bin", f"get_recycled() = {lys.get_recycled()!r}"))
